@@ -231,6 +231,7 @@ def run_config(acc, only=None):
         ks = [db[(i * 37) % len(db)] for i in range(n)]
         plans.append(ks)
     plans += [[db[i]] for i in idx]
+    kept = []
     for ks in plans:
         for byname in (True, False):
             cfg = []
@@ -250,11 +251,19 @@ def run_config(acc, only=None):
                     acc.violation(f"helper_refuses_valid_input|{site}|{type(e).__name__}", {"kind": "cfg", "n": len(ks)}, str(e))
                     continue
                 fr, out = frame_checks(m, cid, mode, site)
+                kept.append((m, fr, cid, mode, site, len(ks)))
                 acc.evaluations += 1
                 acc.transitions += 1
                 acc.outcomes[(fn, len(ks) > 1, "built")] += 1
                 for key, detail in out:
                     acc.violation(key, {"kind": "cfg", "n": len(ks)}, detail)
+    # messages built earlier must still be the same well-formed frames after all later constructions
+    for m, fr, cid, mode, site, n in kept:
+        fr2, out = frame_checks(m, cid, mode, site)
+        if fr2 != fr:
+            out.append((f"earlier_message_changed_by_later_construction|{site}", f"{(fr or b'').hex()[:40]} -> {(fr2 or b'').hex()[:40]}"))
+        for key, detail in out:
+            acc.violation(key if key.startswith("earlier") else key + "|after_later_constructions", {"kind": "cfg", "n": n}, detail)
     # by-name and by-ID lists must give identical frames
     ks = [db[(i * 37) % len(db)] for i in range(20)]
     a = UBXMessage.config_poll(0, 0, [n for n, _ in ks]).serialize()
